@@ -9,6 +9,7 @@ order and fuse, on a seeded worker pool and completion queue.  See DESIGN.md 5.3
 from __future__ import annotations
 
 import hashlib
+import os
 import uuid as _uuid
 
 from sim.kernel import Kernel, SimAbort
@@ -60,6 +61,11 @@ def config_for(i, tier='quick'):
         dict(mode='event', fault='task', branch='distributed'),
         dict(mode='thread', fault='none', branch='distributed'),
         dict(mode='event', fault='abort', branch='distributed'),
+        # a real LocalDirectoryContext on disk: context-taking tasks log through it, the result
+        # of the workflow may be a Results object that execute_workflow stores in the context
+        dict(mode='event', fault='none', branch='threaded', ctx='disk'),
+        dict(mode='thread', fault='none', branch='distributed', ctx='disk'),
+        dict(mode='thread', fault='task', branch='threaded', ctx='disk'),
     ]
     return dict(classes[i % len(classes)])
 
@@ -74,7 +80,8 @@ def hash_sensitive(cfg):
 
 
 def class_name(cfg):
-    return f"mode={cfg['mode']},fault={cfg['fault']},branch={cfg['branch']}"
+    return f"mode={cfg['mode']},fault={cfg['fault']},branch={cfg['branch']}" + \
+        (',ctx=disk' if cfg.get('ctx') == 'disk' else '')
 
 
 # --------------------------------------------------------------------------
@@ -96,6 +103,9 @@ class _Run:
         self.kernel = None
         self.tape = None
         self.ctx_obj = None
+        self.disk = False       # ctx_obj is a real LocalDirectoryContext
+        self.logged = []        # (start seq, end seq, message) of every log call made by a task
+        self.wrap_value = None  # the task returning this value wraps it into a Results object
 
 
 _CUR = [None]
@@ -141,9 +151,26 @@ def _call(fname, args):
         run.calls.append((run.seq, 'fail', fname, argsigs, None))
         raise InjectedTaskFailure(sig)
     v = value_of(fname, argsigs)
+    if run.disk and args and args[0] is run.ctx_obj:
+        # a context-taking task logs through the real context (message with quotes and commas)
+        msg = f'task|{fname}|' + ','.join(f'"{a}"' for a in argsigs)
+        s0 = run.seq
+        getattr(args[0], ('log_info', 'log_warning', 'log_error')[len(argsigs) % 3])(msg)
+        run.logged.append((s0, run.seq + 1, msg, ('info', 'warning', 'error')[len(argsigs) % 3]))
     run.seq += 1
     run.calls.append((run.seq, 'end', fname, argsigs, v))
+    if run.wrap_value is not None and v == run.wrap_value:
+        return _wrap_results(v)
     return v
+
+
+def _wrap_results(v):
+    """The workflow's result as a tool Results object (execute_workflow stores those)."""
+    import pandas as pd
+    from pharmpy.tools.linearize.results import LinearizeResults
+    return LinearizeResults(ofv=pd.DataFrame({'ofv': [1.5, -2.25]}, index=[v, 'second "row", with comma']),
+                            iofv=pd.DataFrame({'base': [1.0, 2.0], 'lin': [1.125, 2.5]},
+                                              index=pd.Index([1, 2], name='ID')))
 
 
 def get_fn(i, ctxful):
@@ -225,6 +252,8 @@ def _call_sub(fname, args):
     v = value_of(fname, argsigs + (enc(sub),))
     run.seq += 1
     run.calls.append((run.seq, 'end', fname, argsigs, v))
+    if run.wrap_value is not None and v == run.wrap_value:
+        return _wrap_results(v)
     return v
 
 
@@ -640,7 +669,18 @@ def build(world):
                 world.ops.append('snapshot = Workflow(builder)  (builder keeps being used)')
                 world.count('op.snapshot')
         elif op == 'roundtrip':
-            wf = pw.Workflow(wb)
+            # every way of freezing a builder into a Workflow value
+            rk = t.draw(4, 'roundtrip.kind')
+            if rk == 0:
+                wf = pw.Workflow(wb)
+            elif rk == 1:
+                wf = pw.Workflow.create(builder=wb)
+            elif rk == 2:
+                wf = pw.Workflow(wb).replace(name='wf')           # same graph, name given
+            else:
+                wf = pw.Workflow(pw.WorkflowBuilder(name='other')).replace(builder=wb)
+            if wf.name != 'wf':
+                raise Violation('workflow-name-lost', f'name is {wf.name!r} after freezing (kind {rk})')
             compare(world, wf, m, 'Workflow(builder)')
             wb = pw.WorkflowBuilder(wf)
             world.ops.append('roundtrip')
@@ -986,7 +1026,19 @@ def _execute(cfg, tape, world, wf, m, multi, viol, stats, h, want_trace):
     out = {'steps': 0, 'switches': 0, 'sim_seconds': 0.0}
     run = _Run()
     run.tape = tape
-    ctx = _P['NullContext']('ctx')
+    disk = cfg.get('ctx') == 'disk'
+    if disk:
+        import shutil
+        from pharmpy.workflows import LocalDirectoryContext
+        droot = _disk_root()
+        shutil.rmtree(droot, ignore_errors=True)
+        os.makedirs(droot)
+        ctx = LocalDirectoryContext('wfctx', ref=droot)
+        ctx.broadcast_message = lambda *a, **k: None
+        run.disk = True
+        stats['exec.disk_context'] = stats.get('exec.disk_context', 0) + 1
+    else:
+        ctx = _P['NullContext']('ctx')
     run.ctx_obj = ctx
     # faults
     fail_sigs = frozenset()
@@ -1001,6 +1053,9 @@ def _execute(cfg, tape, world, wf, m, multi, viol, stats, h, want_trace):
         stats['fault.task_failure'] = stats.get('fault.task_failure', 0) + len(fail_sigs)
     run.fail_sigs = fail_sigs
     _CUR[0] = run
+    if disk and not multi and not fail_sigs and tape.draw(2, 'wrap.results'):
+        value0, _c0, _f0, _r0 = reference_eval(world, m)
+        run.wrap_value = value0[m.outputs()[0]]
     nworkers = 1 + tape.draw(4, 'nworkers')
     chunks = tape.weighted([(8, 1), (2, 2), (1, 3)], 'chunksize')  # -1 trips a dask bug (0 ready)
     env_ref = [None]
@@ -1132,6 +1187,11 @@ def _execute(cfg, tape, world, wf, m, multi, viol, stats, h, want_trace):
                     v = a.strip("'")
                     if v not in ended or ended[v] > c[0]:
                         viol('started-before-predecessor', f'{c[2]} started with {v} before it existed')
+    if disk:
+        prob = _check_context_log(ctx, run, cfg, exc)
+        if prob:
+            viol('context-log', prob)
+            return out
     aborted = getattr(run, 'aborted', False)
     if aborted:
         # context.abort_workflow closed the client: run() returns None, nothing runs twice
@@ -1147,6 +1207,13 @@ def _execute(cfg, tape, world, wf, m, multi, viol, stats, h, want_trace):
             viol(f'raised/{type(exc).__name__}', f'execute_workflow raised {exc!r}')
             return out
         sink = m.outputs()[0]
+        if run.wrap_value is not None:
+            prob = _check_stored_results(ctx, outcome.get('value'), value[sink])
+            if prob:
+                viol('results-object', prob)
+                return out
+            outcome['value'] = value[sink]
+            stats['exec.results_object_stored'] = stats.get('exec.results_object_stored', 0) + 1
         if outcome.get('value') != value[sink]:
             viol('wrong-result', f'execute_workflow returned {outcome.get("value")!r}, sequential '
                                  f'reference gives {value[sink]!r}')
@@ -1180,6 +1247,76 @@ def _execute(cfg, tape, world, wf, m, multi, viol, stats, h, want_trace):
             if sig not in calls_ok:
                 viol('ran-after-failed-predecessor', f'{sig[0]}{list(sig[1])} ran')
     return out
+
+
+def _disk_root():
+    return f'/dev/shm/verif-c17-{os.getpid():07d}'
+
+
+def cleanup():
+    import glob
+    import shutil
+    for d in glob.glob('/dev/shm/verif-c17-*'):
+        try:
+            pid = int(d.rsplit('-', 1)[1])
+        except ValueError:
+            continue
+        if pid == os.getpid() or not os.path.exists(f'/proc/{pid}'):
+            shutil.rmtree(d, ignore_errors=True)
+
+
+def _check_stored_results(ctx, got, want_value):
+    """execute_workflow returns the Results object of the sink and has stored it in the
+    context (results.json + results.csv), readable back and equal."""
+    from pharmpy.workflows.results import Results
+    if not isinstance(got, Results):
+        return f'the sink returned a Results object but execute_workflow returned {got!r}'
+    if list(got.ofv.index)[0] != want_value:
+        return f'Results object of another task: {list(got.ofv.index)[0]} instead of {want_value}'
+    try:
+        back = ctx.retrieve_results()
+    except Exception as ex:
+        return f'execute_workflow did not store the results in the context: {ex!r}'
+    if back.to_json() != got.to_json():
+        return 'the results stored in the context differ from the returned ones'
+    if not os.path.isfile(os.path.join(str(ctx.path), 'results.csv')):
+        return 'results.csv was not written'
+    return None
+
+
+def _check_context_log(ctx, run, cfg, exc):
+    """Every log call made by a task is in the context's log exactly once, verbatim, with its
+    severity and context path, in an order consistent with the calls' real-time order; the
+    distributed dispatcher frames them with its own two messages."""
+    try:
+        df = ctx.retrieve_log()
+    except Exception as ex:
+        return f'retrieve_log raises {ex!r}'
+    rows = list(zip(df['path'].tolist(), df['severity'].tolist(), df['message'].tolist()))
+    task_rows = [r for r in rows if r[2].startswith('task|')]
+    want = [(m_[2], m_[3]) for m_ in run.logged]
+    if sorted((r[2], r[1]) for r in task_rows) != sorted(want):
+        return f'log rows {[(r[2], r[1]) for r in task_rows][:4]} differ from the messages the tasks logged {want[:4]}'
+    if any(r[0] != 'wfctx' for r in rows):
+        return f'context path of a row is not that of the context: {[r[0] for r in rows][:3]}'
+    pos = {}
+    for i, r in enumerate(task_rows):
+        pos.setdefault(r[2], []).append(i)
+    for a in run.logged:
+        for b in run.logged:
+            if a[1] <= b[0] and a[2] != b[2] and max(pos[a[2]]) > min(pos[b[2]]) and \
+                    len(pos[a[2]]) == 1 and len(pos[b[2]]) == 1:
+                return f'{a[2][:50]!r} was logged before {b[2][:50]!r} but comes after it'
+    if cfg['branch'] == 'distributed' and not getattr(run, 'aborted', False):
+        others = [r[2] for r in rows if not r[2].startswith('task|')]
+        if not others or not others[0].startswith('Dispatching workflow') or \
+                (exc is None and others[-1] != 'End dispatch'):
+            return f'dispatcher messages missing or misplaced: {others[:3]}'
+        if rows[0][2] != others[0] or (exc is None and rows[-1][2] != 'End dispatch'):
+            return 'dispatcher messages do not frame the task messages'
+        if exc is None and len(others) != 2:
+            return f'the dispatcher logged {others} (expected one start and one end message)'
+    return None
 
 
 def decode(cfg, tape_values):
